@@ -48,7 +48,7 @@ func run(cfg lib.Cfg) error {
 	slog.SetDefault(slog.New(slog.NewTextHandler(io.Discard, nil)))
 	out := lib.NewOut("C08", cfg.Out, header, "run", 100)
 	out.Rule = "cache-seq: at least one hit and one re-fetch (expiry, eviction or failed fetch); " +
-		"head-seq/latest-seq/poller: at least one hit and one miss after the first announcement; " +
+		"head-seq/latest-seq/poller/ws: at least one hit and one miss after the first announcement; " +
 		"attach: an index attached more than once; get-seq/get-conc: two calls with different filter or plan on one cached range; " +
 		"cache-conc: a segment served more than one goroutine"
 	streams := []stream{
